@@ -274,7 +274,7 @@ def run(tier):
             items += [(s, a) for a in asg]
     t = core.Tally()
     core.run_pool([(MOD, "job", {"items": c, "pairs": True}) for c in core.chunks(items[::-1], core.NPROC * 6)] +
-                  [(MOD, "job", {"items": c, "pairs": False}) for c in core.chunks(items, core.NPROC * 2 + 1)] + [("mc.positional", "job", {"pid": "C11"})], 0, into=t)   # second pass, other order
+                  [(MOD, "job", {"items": c, "pairs": False}) for c in core.chunks(items, core.NPROC * 2 + 1)] + [("mc.positional", "job", {"pid": "C11"}), ("mc.numbers", "job", {"pid": "C11"})], 0, into=t)   # second pass, other order
     core.run_pool([(MOD, "job", {"items": c, "pairs": False}) for c in core.chunks(items[:40], core.NPROC)], 1, into=t)
     cov = {
         "states": t.c["states"], "transitions": t.c["evaluations"], "traces_validated_against_impl": t.c["evaluations"],
@@ -286,5 +286,5 @@ def run(tier):
                 "non-empty attributes or more than one node" % (npart, len(VALUES), nfull, len(OPTIONS)),
         "bounds": {"full_upto": nfull, "max_nodes": npart, "trees": len(items)},
     }
-    return {"tally": t, "coverage": cov, "guards": ("exports_after_navigation_reads", "positional_calls", "reconfigured_exports", "nontrivial", "imports", "config_pairs", "importer_reuse_checks", "import_input_variants"),
+    return {"tally": t, "coverage": cov, "guards": ("unusual_number_calls", "exports_after_navigation_reads", "positional_calls", "reconfigured_exports", "nontrivial", "imports", "config_pairs", "importer_reuse_checks", "import_input_variants"),
             "assumptions": ["JSON value domain of %d dictionaries; NaN/Infinity are not JSON and excluded" % len(VALUES)]}
